@@ -96,7 +96,7 @@ claim(
 )
 claim(
     "C20",
-    "Model-based testing over generated histories: bus scenarios (publish/subscribe/param/logger event schedules incl. simultaneous events) executed on a fresh uros.Core and compared with a list/dict reference model; estimator node driven with generated stamp patterns through recording spies",
+    "Model-based testing over generated histories: bus scenarios (publish/subscribe/param/logger event schedules incl. simultaneous events) executed on a fresh uros.Core and compared with a list/dict reference model; estimator node driven with generated stamp patterns through recording spies; a hypothesis.stateful rule-based machine over the registry API; thorough tier adds coverage-guided atheris/libFuzzer campaigns over the same strategies and oracles",
     "Exploration: each generated scenario is a whole history (setup order, pre-run publishes, late subscribers, publisher processes with dyadic delays, wrong-type publishes, parameter updates, logger period changes) shrunk as one value; invariants: exactly-once synchronous in-order delivery to the subscribers of the topic only, type rejection, parameter visibility after broadcast, logger row times/contents; estimator: dt > 0 for every predict and rate-limited corrections.",
     "simpy is single-threaded and deterministic, so the generated schedules are all the schedules that exist for this code; tie-breaking among simultaneous events is not over-specified by the model.",
     "DESIGN.md §3 C20",
@@ -111,7 +111,7 @@ claim(
 )
 claim(
     "C19",
-    "Grammar-based generation of expression trees (Hypothesis recursive strategies) + differential evaluation: SymPy evalf (30 digits) vs CasADi Function, both directions; typed numeric/boolean sub-trees; stateful symbol-table histories with cse",
+    "Grammar-based generation of expression trees (Hypothesis recursive strategies) + differential evaluation: SymPy evalf (30 digits) vs CasADi Function, both directions; typed numeric/boolean sub-trees; stateful symbol-table histories with cse; thorough tier adds coverage-guided atheris/libFuzzer campaigns",
     "Exploration over programs: random trees over the supported grammar of each converter (plus unsupported constructs that must raise or convert faithfully) evaluated at generated points incl. equal operands, negative operands, exact zeros and rounding ties; sequences of conversions sharing one symbol table check name <-> variable consistency.",
     "Trusts SymPy's numeric evaluation. Points outside a sub-expression's domain (non-finite intermediate, atan2(0,0)) or ill-conditioned are discarded and counted. Any exception on an unsupported construct counts as 'raises'.",
     "DESIGN.md §3 C19",
